@@ -70,6 +70,9 @@ def eval_circuit(job):
     bad = [(nm, q) for nm, q in og if nm not in P.IGNORED and len(q) >= 2 and (len(q) != 2 or tuple(sorted(q)) not in set(docs.coupling_edges(n, conn)))]
     rec("C02.pairs_on_edges.compressed", not bad, f"compressed circuit for [{text[:60]}] on {n}-{conn}: gates off the coupling graph {bad[:3]}")
     orbit = G.classify(n, P.state_generators(n, gates))
+    if e2e.cid_map(n).get(orbit) is None:
+        rec("C07.cost_of_class", False, f"no class id has its representative graph in the LC orbit of the state of [{text[:60]}]")
+        return out
     info = cl.stabilizer_circuit_lookup(n, conn, e2e.cid_map(n)[orbit])
     c, d = P.two_qubit_cost(og), P.two_qubit_depth(n, og)
     rec("C04.cost_depth_eq_metadata.compressed", (c, d) == (info.cost, info.depth),
